@@ -15,7 +15,9 @@ def canonDict (d : Dict) : String := renderPV (sortPV (.dict d))
 
 def attrsTok : Option (List Attr) → String
   | none => "!"
-  | some as => ",".intercalate (as.map fun a => hexOfStr a.1 ++ "=" ++ hexOfStr a.2)
+  | some as =>
+    -- attributes as a map: the order in which the writer pushes them is not part of the property
+    ",".intercalate ((as.map fun a => hexOfStr a.1 ++ "=" ++ hexOfStr a.2).toArray.qsort (· < ·)).toList
 
 def evTok : Ev → String
   | .decl => "D" | .comment => "C" | .other => "O" | .cdata => "A" | .error => "X"
